@@ -273,3 +273,296 @@ def r01_2(ctx):
 def run(ctx):
     r01_1(ctx)
     r01_2(ctx)
+
+
+# --------------------------------------------------------------------------- R01.3
+from ..modespec import Spec, applied_feat, factor_feat  # noqa: E402
+
+MODES = (1, 2, 4, 8)
+ILOG = {1: 0, 2: 1, 4: 2, 8: 3}
+
+
+def _feat_ok(f, k):
+    return f is not None and f.conj == (k & 1) and f.recip == ((k >> 1) & 1)
+
+
+def r01_3(ctx):
+    m = ctx.model
+    R = "R01.3"
+    ctx.rule(R, "dispatch semantics per mode (mode-specialised abstract interpretation): chain order and _flip_modes order, "
+                "sum term-wise application with the same-position sign, adapter mode remapping / XOR composition / domain "
+                "selection / sampling flag, scaling and diagonal factors conjugated iff k&1 and reciprocal iff k&2 for the "
+                "effective transformation k, simplifier arithmetic respects that reciprocal does not distribute over sums, "
+                "inversion enabler flips by ilog(mode)^INVERSE_BIT, sandwich/block-diagonal delegate the unchanged mode", floor=60)
+    # ---- ScalingOperator
+    S = m.cls(OPS + "scaling_operator", "ScalingOperator")
+    ctx.saw_class(S)
+    ap = S.methods["apply"]
+    ctx.saw_func(ap)
+    xn = ap.params()[1]
+    for mode in MODES:
+        sp = Spec(m, S, ap, {ap.params()[2]: mode}).run()
+        k = ILOG[mode]
+        decided = 0
+        for e, assume, st in sp.returns:
+            f = applied_feat(e, xnames=(xn,))
+            if f is None:
+                continue
+            decided += 1
+            ctx.check(R, f"{ap.key}::mode {mode}: factor conjugated iff k&1, reciprocal iff k&2 (k={k})", _feat_ok(f, k),
+                      f"applies {f!r} (expression `{src(e)}`)", ap, st)
+        if not decided:
+            ctx.und(R, f"{ap.key}::mode {mode}", f"no return of the form x*f recognised: {[src(e) for e, _, _ in sp.returns]}", ap)
+    fl = S.methods["_flip_modes"]
+    ctx.saw_func(fl)
+    for t in range(4):
+        sp = Spec(m, S, fl, {fl.params()[1]: t}).run()
+        for e, assume, st in sp.returns:
+            key = f"{fl.key}::trafo {t}: new factor conjugated iff t&1, reciprocal iff t&2"
+            if isinstance(e, ast.Call) and call_name(e) == "ScalingOperator" and len(e.args) >= 2:
+                f = factor_feat(e.args[1])
+                ctx.check(R, key, _feat_ok(f, t) if f is not None else None, f"new factor `{src(e.args[1])}`", fl, st)
+            elif src(e) == "self" and t == 0:
+                ctx.ok(R, key, "returns self", fl, st)
+            else:
+                ctx.und(R, key, src(e), fl, st)
+    # ---- DiagonalOperator
+    D = m.cls(OPS + "diagonal_operator", "DiagonalOperator")
+    ctx.saw_class(D)
+    ap = D.methods["apply"]
+    ctx.saw_func(ap)
+    xn = ap.params()[1]
+    for mode in MODES:
+        for t in range(4):
+            sp = Spec(m, D, ap, {ap.params()[2]: mode, "self._trafo": t}).run()
+            k = ILOG[mode] ^ t
+            key = f"{ap.key}::mode {mode}, stored trafo {t}: diagonal conjugated iff k&1, reciprocal iff k&2 (k={k})"
+            feats = [(applied_feat(e, xnames=(f"{xn}.val", xn)), e, st) for e, a, st in sp.returns]
+            if len(feats) != 1 or feats[0][0] is None:
+                ctx.und(R, key, f"returns {[src(e) for _, e, _ in feats]}", ap)
+            else:
+                f, e, st = feats[0]
+                ctx.check(R, key, _feat_ok(f, k), f"applies {f!r}", ap, st)
+    gad = D.methods["_get_actual_diag"]
+    ctx.saw_func(gad)
+    for t in range(4):
+        sp = Spec(m, D, gad, {"self._trafo": t}).run()
+        key = f"{gad.key}::stored trafo {t}"
+        if len(sp.returns) != 1:
+            ctx.und(R, key, f"{len(sp.returns)} returns", gad)
+            continue
+        f = factor_feat(sp.returns[0][0])
+        ctx.check(R, key, _feat_ok(f, t) if f is not None else None, f"returns `{src(sp.returns[0][0])}`", gad, sp.returns[0][2])
+    fl = D.methods["_flip_modes"]
+    ctx.saw_func(fl)
+    rr = [r for r in walk_no_nested(fl.node) if isinstance(r, ast.Return)]
+    tp = fl.params()[1]
+    okk = len(rr) == 1 and isinstance(rr[0].value, ast.Call) and call_name(rr[0].value) == "_from_ldiag" and len(rr[0].value.args) == 4 \
+        and src(rr[0].value.args[1]) == "self._ldiag" and src(rr[0].value.args[3]) in (f"self._trafo ^ {tp}", f"{tp} ^ self._trafo")
+    ctx.check(R, f"{fl.key}::keeps the raw diagonal and composes transformations by XOR", okk, src(rr[0].value) if rr else None, fl)
+    # simplifier arithmetic
+    for name in ("_combine_prod", "_combine_sum", "_scale", "_add", "get_sqrt"):
+        fi = D.methods.get(name)
+        if fi is None:
+            continue
+        ctx.saw_func(fi)
+        sp = Spec(m, D, fi, {}).run()
+        for e, assume, st in sp.returns:
+            if not (isinstance(e, ast.Call) and call_name(e) == "_from_ldiag" and len(e.args) == 4):
+                continue
+            diag, tr = e.args[1], e.args[3]
+            key = f"{fi.key}::_from_ldiag({short(diag, 50)}, trafo={src(tr)}) [{'; '.join(assume)}]"
+            raw = [x for x in ast.walk(diag) if isinstance(x, ast.Attribute) and x.attr == "_ldiag"]
+            resolved = [x for x in ast.walk(diag) if isinstance(x, ast.Call) and call_name(x) == "_get_actual_diag"]
+            has_add = any(isinstance(x, ast.BinOp) and isinstance(x.op, (ast.Add, ast.Sub)) for x in ast.walk(diag))
+            tr_zero = isinstance(tr, ast.Constant) and tr.value == 0
+            if resolved and not raw:
+                ctx.check(R, key, tr_zero, "operands are the actual (transformation-resolved) diagonals, so the result must be stored with trafo 0", fi, st)
+            elif raw and not resolved:
+                if tr_zero:
+                    # raw diagonals stored as untransformed: only right if every operand's trafo is known to be 0
+                    known0 = all(any(f"{src(x.value)}._trafo == 0" in a for a in assume) for x in raw)
+                    ctx.check(R, key, True if known0 else False,
+                              "raw (lazily transformed) diagonals are combined but stored with trafo 0", fi, st)
+                else:
+                    # lazily keeping the transformation: conj distributes over + and *, the reciprocal only over *
+                    no_recip = any(("_trafo < 2" in a or "_trafo <= 1" in a or "& self.INVERSE_BIT == 0" in a or "_trafo in (0, 1)" in a)
+                                   and not a.startswith("not") for a in assume)
+                    same = len(raw) == 1 or any("_trafo ==" in a and not a.startswith("not") for a in assume)
+                    if has_add and len(raw) > 1 and not no_recip:
+                        ctx.bad(R, key, "raw diagonals are added while a lazy transformation that may contain the inverse bit is kept: "
+                                        "1/(a+b) != 1/a + 1/b", fi, st)
+                    elif name == "get_sqrt" or len(raw) == 1:
+                        ctx.ok(R, key, "single raw diagonal with its transformation kept", fi, st)
+                    else:
+                        ctx.check(R, key, True if same else None, "product of raw diagonals keeps a common lazy transformation", fi, st)
+            elif raw and resolved:
+                ctx.bad(R, key, "mixes raw and transformation-resolved diagonals", fi, st)
+    # ---- ChainOperator
+    C = m.cls(OPS + "chain_operator", "ChainOperator")
+    ctx.saw_class(C)
+    ap = C.methods["apply"]
+    ctx.saw_func(ap)
+    xn, mn = ap.params()[1:3]
+    for mode in MODES:
+        sp = Spec(m, C, ap, {mn: mode}).run()
+        key = f"{ap.key}::mode {mode}: constituents visited {'in stored order' if mode in (2, 4) else 'reversed'}, each with the same mode"
+        if len(sp.loops) != 1:
+            ctx.und(R, key, f"{len(sp.loops)} loops", ap)
+            continue
+        lp, it, env, assume = sp.loops[0]
+        want = "self._ops" if mode in (2, 4) else "reversed(self._ops)"
+        body_calls = [c for c in ast.walk(lp) if isinstance(c, ast.Call) and call_name(c) == "apply"]
+        tgt = lp.target.id if isinstance(lp.target, ast.Name) else None
+        good_call = len(body_calls) == 1 and src(body_calls[0].func.value) == tgt and [src(a) for a in body_calls[0].args] == [xn, mn]
+        upd = any(isinstance(s_, ast.Assign) and src(s_.targets[0]) == xn and s_.value is body_calls[0] for s_ in lp.body) if body_calls else False
+        ret_ok = len(sp.returns) == 1 and src(sp.returns[0][0]) == xn
+        got = src(it).replace("self._ops[::-1]", "reversed(self._ops)").replace("tuple(reversed(self._ops))", "reversed(self._ops)")
+        ctx.check(R, key, got == want and good_call and upd and ret_ok,
+                  f"iterates `{src(it)}`, calls {[src(c) for c in body_calls]}, returns {[src(r[0]) for r in sp.returns]}", ap, lp)
+    fl = C.methods["_flip_modes"]
+    ctx.saw_func(fl)
+    tp = fl.params()[1]
+    for t in range(4):
+        sp = Spec(m, C, fl, {tp: t}).run()
+        key = f"{fl.key}::trafo {t}"
+        if t == 0:
+            ctx.check(R, key + ": identity", len(sp.returns) == 1 and src(sp.returns[0][0]) == "self", None, fl)
+            continue
+        if len(sp.returns) != 1:
+            ctx.und(R, key, f"{len(sp.returns)} returns / {len(sp.raises)} raises", fl)
+            continue
+        e = sp.returns[0][0]
+        want_it = "reversed(self._ops)" if t in (1, 2) else "self._ops"
+        okk = False
+        detail = src(e)
+        if isinstance(e, ast.Call) and call_name(e) == "make" and len(e.args) == 1 and isinstance(e.args[0], (ast.ListComp, ast.GeneratorExp)):
+            lc = e.args[0]
+            g = lc.generators[0]
+            elt = lc.elt
+            okk = src(g.iter) == want_it and isinstance(elt, ast.Call) and call_name(elt) == "_flip_modes" \
+                and src(elt.func.value) == src(g.target) and len(elt.args) == 1 and isinstance(elt.args[0], ast.Constant) and elt.args[0].value == t
+        ctx.check(R, key + f": order {'reversed' if t in (1, 2) else 'kept'}, every constituent flipped with {t}", okk, detail, fl)
+    # ---- SumOperator
+    SU = m.cls(OPS + "sum_operator", "SumOperator")
+    ctx.saw_class(SU)
+    ap = SU.methods["apply"]
+    ctx.saw_func(ap)
+    xn, mn = ap.params()[1:3]
+    lps = [n for n in walk_no_nested(ap.node) if isinstance(n, ast.For)]
+    key = f"{ap.key}::every term applied with `mode` to x.extract(op._dom(mode)); sign taken from the same position"
+    if len(lps) != 1:
+        ctx.und(R, key, f"{len(lps)} loops", ap)
+    else:
+        lp = lps[0]
+        okz = src(lp.iter) == "zip(self._ops, self._neg)" and isinstance(lp.target, ast.Tuple) and len(lp.target.elts) == 2
+        on, nn = (src(lp.target.elts[0]), src(lp.target.elts[1])) if okz else (None, None)
+        calls = [c for c in ast.walk(lp) if isinstance(c, ast.Call) and call_name(c) == "apply"]
+        okc = len(calls) == 1 and src(calls[0].func.value) == on and [src(a) for a in calls[0].args] == [f"{xn}.extract({on}._dom({mn}))", mn]
+        body = src(lp)
+        oks = (f"-tmp if {nn} else tmp" in body) and (f"flexible_addsub(tmp, {nn})" in body)
+        ctx.check(R, key, okz and okc and oks, f"loop `{src(lp.iter)}`, call {[src(c) for c in calls]}", ap, lp)
+    fa = m.func(FLDMOD, "Field.flexible_addsub", required=False) if False else None
+    adj = SU.methods.get("adjoint")
+    if adj is not None:
+        rr = [r for r in walk_no_nested(adj.node) if isinstance(r, ast.Return)]
+        ctx.check(R, f"{adj.key}::adjoint of a sum is the sum of adjoints with the same signs",
+                  len(rr) == 1 and src(rr[0].value) == "self.make([op.adjoint for op in self._ops], self._neg)", src(rr[0].value) if rr else None, adj)
+    # ---- OperatorAdapter
+    A = m.cls(OPS + "operator_adapter", "OperatorAdapter")
+    ctx.saw_class(A)
+    ap = A.methods["apply"]
+    ctx.saw_func(ap)
+    xn, mn = ap.params()[1:3]
+    for t in (1, 2, 3):
+        for mode in MODES:
+            sp = Spec(m, A, ap, {mn: mode, "self._trafo": t}).run()
+            want = 1 << (ILOG[mode] ^ t)
+            key = f"{ap.key}::trafo {t}, mode {mode} -> wrapped mode {want}"
+            if len(sp.returns) != 1:
+                ctx.und(R, key, f"{len(sp.returns)} returns", ap)
+                continue
+            e = sp.returns[0][0]
+            okk = isinstance(e, ast.Call) and src(e.func) == "self._op.apply" and len(e.args) == 2 and src(e.args[0]) == xn \
+                and isinstance(e.args[1], ast.Constant) and e.args[1].value == want
+            ctx.check(R, key, okk, src(e), ap, sp.returns[0][2])
+    fl = A.methods["_flip_modes"]
+    ctx.saw_func(fl)
+    tp = fl.params()[1]
+    for t0 in (1, 2, 3):
+        for t in range(4):
+            sp = Spec(m, A, fl, {tp: t, "self._trafo": t0}).run()
+            nt = t0 ^ t
+            key = f"{fl.key}::stored {t0}, flip {t} -> {nt}"
+            if len(sp.returns) != 1:
+                ctx.und(R, key, f"{len(sp.returns)} returns", fl)
+                continue
+            e = sp.returns[0][0]
+            if nt == 0:
+                ctx.check(R, key, src(e) == "self._op", src(e), fl)
+            else:
+                okk = isinstance(e, ast.Call) and call_name(e) == "OperatorAdapter" and len(e.args) == 2 and src(e.args[0]) == "self._op" \
+                    and isinstance(e.args[1], ast.Constant) and e.args[1].value == nt
+                ctx.check(R, key, okk, src(e), fl)
+    ini = A.methods["__init__"]
+    ctx.saw_func(ini)
+    dom = [s_ for s_ in walk_no_nested(ini.node) if isinstance(s_, ast.Assign) and is_self_attr(s_.targets[0], "_domain")]
+    tgt = [s_ for s_ in walk_no_nested(ini.node) if isinstance(s_, ast.Assign) and is_self_attr(s_.targets[0], "_target")]
+    ctx.check(R, f"{ini.key}::domain/target are _dom/_tgt(1 << trafo) of the wrapped operator",
+              len(dom) == 1 and len(tgt) == 1 and src(dom[0].value) == "self._op._dom(1 << self._trafo)" and src(tgt[0].value) == "self._op._tgt(1 << self._trafo)",
+              f"{src(dom[0].value) if dom else None} / {src(tgt[0].value) if tgt else None}", ini)
+    ds = A.methods["draw_sample"]
+    ctx.saw_func(ds)
+    fin = ds.params()[1]
+    for t in (1, 2, 3):
+        sp = Spec(m, A, ds, {"self._trafo": t}).run()
+        key = f"{ds.key}::trafo {t}: from_inverse {'negated' if t & 2 else 'passed on'}"
+        if len(sp.returns) != 1:
+            ctx.und(R, key, f"{len(sp.returns)} returns", ds)
+            continue
+        e = sp.returns[0][0]
+        a0 = src(e.args[0]) if isinstance(e, ast.Call) and e.args else None
+        ctx.check(R, key, isinstance(e, ast.Call) and src(e.func) == "self._op.draw_sample" and a0 == (f"not {fin}" if t & 2 else fin), src(e), ds)
+    # ---- InversionEnabler
+    IE = m.cls(OPS + "inversion_enabler", "InversionEnabler")
+    ctx.saw_class(IE)
+    ap = IE.methods["apply"]
+    ctx.saw_func(ap)
+    xn, mn = ap.params()[1:3]
+    for mode in MODES:
+        sp = Spec(m, IE, ap, {mn: mode}).run()
+        flips = [c for c, a in sp.calls if call_name(c) == "_flip_modes"]
+        inv = [c for c in flips if src(c.func.value) == "self._op"]
+        pre = [c for c in flips if src(c.func.value) != "self._op"]
+        key = f"{ap.key}::mode {mode}: CG operator is op flipped by ilog(mode)^INVERSE_BIT = {ILOG[mode] ^ 2}; preconditioner flipped by {ILOG[mode]}"
+        okk = len(inv) >= 1 and all(isinstance(c.args[0], ast.Constant) and c.args[0].value == (ILOG[mode] ^ 2) for c in inv) and \
+            len(pre) >= 1 and all(isinstance(c.args[0], ast.Constant) and c.args[0].value == ILOG[mode] for c in pre)
+        ctx.check(R, key, okk, f"{[src(c) for c in flips]}", ap)
+        native = [e for e, a, st in sp.returns if isinstance(e, ast.Call) and src(e.func) == "self._op.apply"]
+        ctx.check(R, f"{ap.key}::mode {mode}: native modes are delegated unchanged",
+                  len(native) == 1 and [src(a) for a in native[0].args] == [xn, str(mode)] or
+                  (len(native) == 1 and isinstance(native[0].args[1], ast.Constant) and native[0].args[1].value == mode), f"{[src(e) for e in native]}", ap)
+    # ---- pure delegations
+    for modn, clsn, attr in (("sandwich_operator", "SandwichOperator", "_op"),):
+        c = m.cls(OPS + modn, clsn)
+        ap = c.methods["apply"]
+        rr = [r for r in walk_no_nested(ap.node) if isinstance(r, ast.Return)]
+        xn, mn = ap.params()[1:3]
+        ctx.check(R, f"{ap.key}::delegates (x, mode) unchanged", len(rr) == 1 and src(rr[0].value) == f"self.{attr}.apply({xn}, {mn})", src(rr[0].value) if rr else None, ap)
+    B = m.cls(OPS + "block_diagonal_operator", "BlockDiagonalOperator")
+    ap = B.methods["apply"]
+    xn, mn = ap.params()[1:3]
+    calls = [c for c in ast.walk(ap.node) if isinstance(c, ast.Call) and call_name(c) == "apply"]
+    okk = len(calls) == 1 and (([src(a) for a in calls[0].args] + [f"{k.arg}={src(k.value)}" for k in calls[0].keywords]) in (["v", f"mode={mn}"], ["v", mn]))
+    zipok = any(isinstance(g, ast.comprehension) and src(g.iter) == f"zip(self._ops, {xn}.values())" for g in ast.walk(ap.node))
+    ctx.check(R, f"{ap.key}::block-wise delegation with the unchanged mode, blocks paired with the input's entries in order", okk and zipok,
+              f"{[src(c) for c in calls]}", ap)
+
+
+FLDMOD = "nifty.cl.field"
+
+
+def run(ctx):  # noqa: F811
+    r01_1(ctx)
+    r01_2(ctx)
+    r01_3(ctx)
